@@ -275,7 +275,10 @@ class StringLiteral(BaseType):
         return [], 'str'
 
     def _to_hash_string(self) -> str:
-        return f"{type(self).__name__}/{self._repr_literals()}"
+        if self._overflow:
+            return f"{type(self).__name__}/..."
+        # Should be different for different sets of literals and do not depend on the order of iteration over a set
+        return f"{type(self).__name__}/{json.dumps(sorted(self._literals))}"
 
     @property
     def literals(self):
